@@ -1461,7 +1461,7 @@ func w1Run(s *simrt.Sim, script any, prop string) {
 var w1Flavours = map[string][]string{
 	"C04": {"_", "p_", "ej_", "r_", "d_", "_"},
 	"C05": {"_", "pe_", "ejJ_", "r_", "e_", "d_", "eM_", "MU_", "peM_", "re_"},
-	"C10": {"_", "_", "p_", "jJ_", "r_", "b_", "pb_", "jJb_"},
+	"C10": {"_", "_", "p_", "jJ_", "r_", "b_", "pb_", "jJb_", "h_", "hb_"},
 	"C01": {"p_", "r_", "r_", "p_", "rf_", "pf_"},
 	"C06": {"e_", "e_", "pe_", "re_"},
 	"C07": {"jJ_", "jJ_", "jJe_", "jJb_"},
@@ -1473,7 +1473,7 @@ var w1Flavours = map[string][]string{
 	"C43": {"h_", "ph_", "eh_", "rh_"},
 	"C02": {"r_", "r_", "rf_"},
 	"C38": {"pm_", "rm_", "m_", "pm_"},
-	"C16": {"f_", "pf_", "rf_", "cf_"},
+	"C16": {"f_", "pf_", "rf_", "cf_", "fh_"},
 	"C14": {"pd_", "rd_", "pfd_", "rd_", "d_", "dm_", "pdm_"},
 	"C03": {"c_", "c_", "cf_"},
 	"C37": {"_", "p_"},
